@@ -38,6 +38,10 @@ var props = map[string]propCfg{
 		{Name: "plain", Shards: 16, TimeoutS: 600, CaseTimeoutS: 60, HangSig: "encode-or-decode-does-not-terminate", TZ: []string{"UTC", "Asia/Shanghai"}},
 		{Name: "race", Race: true, Shards: 16, TimeoutS: 900, CaseTimeoutS: 120, HangSig: "encode-or-decode-does-not-terminate", TZ: []string{"UTC"}},
 	}, RaceFiles: ioRace},
+	"C04": {Pkg: "checks/c04", Level: "exploration", Passes: []pass{
+		{Name: "plain", Shards: 16, TimeoutS: 1200, CaseTimeoutS: 30, HangSig: "hang", UlimitVKB: 6 << 20, TZ: []string{"UTC"}},
+		{Name: "race", Tier: "thorough", Race: true, Shards: 16, TimeoutS: 1800, CaseTimeoutS: 120, HangSig: "hang", TZ: []string{"UTC"}},
+	}, RaceFiles: ioRace},
 	"C05": {Pkg: "checks/c05", Level: "exploration", Passes: []pass{
 		{Name: "plain", Shards: 16, TimeoutS: 900, TZ: []string{"UTC"}},
 		{Name: "asan", Tier: "thorough", Asan: true, Shards: 16, TimeoutS: 1800, TZ: []string{"UTC"}},
